@@ -33,6 +33,14 @@ def _get_decode_array(format_value):
     return _decode_array
 
 
+def _get_decode_set(format_value):
+    def _decode_set(values: Iterable[Any]) -> TemplateValue:
+        # equal sets can iterate in different orders: the key must not depend on it
+        return ":".join(sorted(format_value(value) for value in values))
+
+    return _decode_set
+
+
 def _get_decoded_dict(format_value):
     def _decode_dict(value: dict) -> TemplateValue:
         _kv = (k + ":" + format_value(v) for k, v in sorted(value.items()))
@@ -60,7 +68,8 @@ class _ReplaceFormatter(Formatter):
             Exception: _decode_exception,
             tuple: _decode_array,
             list: _decode_array,
-            set: _decode_array,
+            set: _get_decode_set(self._format_field),
+            frozenset: _get_decode_set(self._format_field),
             dict: _get_decoded_dict(self._format_field),
         }
         super().__init__()
